@@ -96,7 +96,9 @@ def run(chk):
                 costs[i] = -big * (len(pref) - t + 1)
             kind, ck = kind + "+dependent", "dependent_row_preferred"
             Bq = fr_mat(B)
-        elif it >= len(corpus) and n >= 3 and rng.random() < 0.12 and np.any(B):
+        elif it >= len(corpus) and n >= 3 and rng.random() < 0.25 and np.any(B):
+            if rng.random() < 0.7:
+                B, kind = gen.matrix(rng, n, m, "generic")         # dense rows: removing the faint sensor's direction changes every residual
             # a faint but non-zero sensor (2^-60 of the others) made the preferred pivot: its direction is a real direction and has to go
             B = B.copy()
             costs = costs.copy()
